@@ -8,6 +8,7 @@ import (
 	"encoding/hex"
 	"encoding/json"
 	"fmt"
+	"hash/fnv"
 	"os"
 	"runtime/debug"
 	"sort"
@@ -53,6 +54,17 @@ func Shard() (int, int) {
 func Mine(idx int) bool {
 	i, n := Shard()
 	return idx%n == i
+}
+
+// MineKey shards by the identity of a case instead of by its position in the enumeration: use it wherever the
+// enumeration ORDER depends on the code under test (e.g. the order of the requests of a recorded sync, which
+// follows Go map iteration), so that every case is owned by exactly one shard whatever order each shard process
+// happens to enumerate in.
+func MineKey(key string) bool {
+	i, n := Shard()
+	h := fnv.New32a()
+	_, _ = h.Write([]byte(key))
+	return int(h.Sum32()%uint32(n)) == i
 }
 
 // Deadline returns the internal time budget of this run (VERIF_BUDGET_S, default generous). A run that
